@@ -144,7 +144,7 @@ SUBCHECKS = [
     SubCheck("forward_exact_tm", check_position, strategy=T.geo_cases(), nontrivial=_nt, classes=T.tm_classes,
              quick=3000, thorough=360000, shards_quick=4, shards_thorough=16,
              seq_groups=[["ell"], ["prj", "zone", "lon"], ["lat"], ["kind"]],
-             rule="geo2grid vs exact TM (0.2 mm), automatic zone/hemisphere rules, angle objects vs decimal values"),
+             fresh=(8, 64, 3), rule="geo2grid vs exact TM (0.2 mm), automatic zone/hemisphere rules, angle objects vs decimal values"),
     SubCheck("zone_boundaries", check_position, enumerate=enumerate_zone_boundaries, nontrivial=_nt, classes=T.tm_classes,
              shards_quick=4, shards_thorough=8, exhaustive="both",
              rule="automatic zoning at every zone boundary (UTM, ISG, three custom projections) and within a few ulps / 1e-12 / 1e-9 deg of it"),
